@@ -175,59 +175,388 @@ def _merge_zero(items):
     return out
 
 
-def canon_writer(eng, st, toks, prefix="self.*"):
+# ---------------------------------------------------------------- bit spans: which bits of which value is this?
+
+def _divdefs(st):
+    """reverse view of the memoised quotient/remainder symbols: name -> (dividend Lin, divisor, 'q' | 'r')"""
+    d = st.ghost.get("_divdefs")
+    if d is not None and d[0] == len(st.divmemo):
+        return d[1]
+    m = {}
+    for (lkey, c), (q, r) in st.divmemo.items():
+        terms, const = lkey
+        e = Lin(dict(terms), const)
+        m[q] = (e, c, "q")
+        m[r] = (e, c, "r")
+    st.ghost["_divdefs"] = (len(st.divmemo), m)
+    return m
+
+
+def _pow2(c):
+    return c > 0 and (c & (c - 1)) == 0
+
+
+def bitspan(eng, st, lin, depth=0):
+    """(base symbol, low bit, number of bits) when `lin` is provably bits [lo, lo+n) of the unsigned value `base`
+    (a field of the value being encoded, or an integer read from the wire); None otherwise.  Understands the
+    quotient/remainder symbols the engine creates for `>>`, `&`, `%`, `/`, `as u8` and to_be_bytes digits, and sums
+    of such pieces that sit next to each other (from_be_bytes, `(hi << 8) | lo`)."""
+    if depth > 12 or lin.c != 0 or not lin.t:
+        return None
+    items = sorted(lin.t.items(), key=lambda kv: kv[1])
+    if len(items) == 1 and items[0][1] == 1:
+        sname = items[0][0]
+        d = _divdefs(st).get(sname)
+        if d is None:
+            rg = eng.ranges.get(sname)
+            if rg is None or rg[0] is None or rg[0] < 0 or rg[1] is None:
+                return None
+            return (sname, 0, max(1, int(rg[1]).bit_length()))
+        e, c, which = d
+        if not _pow2(c):
+            return None
+        k = c.bit_length() - 1
+        inner = bitspan(eng, st, e, depth + 1)
+        if inner is None:
+            return None
+        b, lo, n = inner
+        if which == "q":
+            return (b, lo + k, n - k) if n > k else None
+        return (b, lo, min(n, k))
+    # sum of adjacent pieces: sum 2^k_i * e_i
+    parts = []
+    for sname, coef in items:
+        if not _pow2(coef):
+            return None
+        sp = bitspan(eng, st, Lin.sym(sname), depth + 1)
+        if sp is None:
+            return None
+        parts.append((coef.bit_length() - 1, sp))
+    parts.sort()
+    k0, (b0, lo0, n0) = parts[0]
+    if k0 != 0:
+        return None
+    pos, lo, n = n0, lo0, n0
+    for k, (b, l2, n2) in parts[1:]:
+        if b != b0 or k != pos or l2 != lo + n:
+            return None
+        pos += n2
+        n += n2
+    return (b0, lo, n)
+
+
+def span_symbol(eng, st, span):
+    """an existing symbol of the state that denotes exactly the bit range `span` (the value the code itself computed
+    for those bits), or None"""
+    b, lo, n = span
+    if lo == 0 and _sym_bits(eng, b) == n:
+        return b
+    for name in _divdefs(st):
+        if bitspan(eng, st, Lin.sym(name)) == span:
+            return name
+    return None
+
+
+def canonical_value(eng, st, lin):
+    """`lin` itself, or - when it is a bit range of some value for which the code computed its own symbol - that
+    symbol, so that two ways of carving the same bits compare equal syntactically"""
+    if len(lin.t) == 1 and lin.c == 0 and next(iter(lin.t.values())) == 1 and next(iter(lin.t)) not in _divdefs(st):
+        return lin
+    sp = bitspan(eng, st, lin)
+    if sp is None:
+        return lin
+    names = sorted(nm for nm in list(_divdefs(st)) if bitspan(eng, st, Lin.sym(nm)) == sp)
+    b, lo, n = sp
+    if lo == 0 and _sym_bits(eng, b) == n:
+        names.insert(0, b)
+    if not names:
+        return lin
+    # all of them denote the same bits: tell the solver, then use the first
+    for other in names[1:]:
+        c = c_eq(Lin.sym(names[0]), Lin.sym(other))
+        if c not in st.cons:
+            st.cons.append(c)
+    return Lin.sym(names[0])
+
+
+def _sym_bits(eng, sname):
+    rg = eng.ranges.get(sname)
+    if rg is None or rg[1] is None:
+        return None
+    return max(1, int(rg[1]).bit_length())
+
+
+def _octets_of_value(eng, st, lin, w):
+    """w octet descriptors (most significant first) of the w-octet big-endian encoding of `lin`:
+    ('c', byte) | ('f', base symbol, low bit of this octet within base) | ('x', text)"""
+    if lin.is_const():
+        v = lin.c
+        return [("c", (v >> (8 * (w - 1 - i))) & 0xff) for i in range(w)]
+    sp = bitspan(eng, st, lin)
+    if sp is not None:
+        b, lo, n = sp
+        if lo % 8 == 0 and n <= 8 * w:
+            nb = (n + 7) // 8
+            out = [("c", 0)] * (w - nb)
+            for i in range(nb):
+                out.append(("f", b, lo + 8 * (nb - 1 - i)))
+            return out
+    # concatenation: sum 256^j * piece, pieces not overlapping
+    pieces = []
+    rest = lin.c
+    for sname, coef in lin.t.items():
+        if coef <= 0:
+            return [("x", repr(lin))] * w
+        j = 0
+        c2 = coef
+        while c2 % 256 == 0:
+            c2 //= 256
+            j += 1
+        if c2 != 1:
+            return [("x", repr(lin))] * w
+        sp = bitspan(eng, st, Lin.sym(sname))
+        if sp is None or sp[1] % 8 != 0:
+            return [("x", repr(lin))] * w
+        pieces.append((j, sp))
+    if rest < 0:
+        return [("x", repr(lin))] * w
+    out = [None] * w
+    for j, (b, lo, n) in pieces:
+        nb = (n + 7) // 8
+        for i in range(nb):
+            idx = w - 1 - (j + i)
+            if idx < 0 or out[idx] is not None:
+                return [("x", repr(lin))] * w
+            out[idx] = ("f", b, lo + 8 * i)
+    for i in range(w):
+        byte = (rest >> (8 * (w - 1 - i))) & 0xff
+        if out[i] is None:
+            out[i] = ("c", byte)
+        elif byte:
+            return [("x", repr(lin))] * w
+    if rest >> (8 * w):
+        return [("x", repr(lin))] * w
+    return out
+
+
+def writer_octets(eng, st, toks):
+    """per-octet descriptors of a run of fixed-width writer tokens (stops at the first variable-length token)"""
+    out = []
+    for t in toks:
+        if t["k"] == "int" and isinstance(t["val"], VInt):
+            out.extend(_octets_of_value(eng, st, t["val"].lin, t["n"].c))
+        elif t["k"] == "bytes" and t["desc"][0] == "elems":
+            for e in t["desc"][1]:
+                out.extend(_octets_of_value(eng, st, e.lin, 1) if isinstance(e, VInt) else [("x", "?")])
+        elif t["k"] == "bytes" and t["desc"][0] == "be" and isinstance(t["desc"][1], VInt) and t["desc"][2]:
+            out.extend(_octets_of_value(eng, st, t["desc"][1].lin, t["desc"][2]))
+        elif t["k"] == "bytes" and t["desc"][0] == "const":
+            out.extend(("c", b) for b in t["desc"][1])
+        else:
+            break
+    return out
+
+
+def compose_octets(eng, st, octs):
+    """the big-endian value of a run of octet descriptors as a Lin over the base symbols (quotient/remainder symbols
+    are created in `st` for partial fields); None if some octet is not understood"""
+    val = Lin.const(0)
+    i = 0
+    n_ = len(octs)
+    while i < n_:
+        o = octs[i]
+        if o[0] == "c":
+            val = val.scale(256) + Lin.const(o[1])
+            i += 1
+            continue
+        if o[0] != "f":
+            return None
+        b, hi_lo = o[1], o[2]
+        j = i
+        lo = hi_lo
+        while j + 1 < n_ and octs[j + 1][0] == "f" and octs[j + 1][1] == b and octs[j + 1][2] == lo - 8:
+            j += 1
+            lo -= 8
+        nbits = hi_lo + 8 - lo
+        piece = Lin.sym(b)
+        wb = _sym_bits(eng, b)
+        if lo > 0:
+            piece, _r = eng.divmod_const(st, piece, 1 << lo)
+        if wb is None or wb > lo + nbits:
+            _q, piece = eng.divmod_const(st, piece, 1 << nbits)
+        val = val.scale(1 << nbits) + piece
+        i = j + 1
+    return val
+
+
+def _merge_octets(eng, octs, name_of, width_of):
+    """octet descriptors -> canonical items: a run that is exactly the octets of one value, most significant first,
+    becomes ('int' | 'enum', n, name); constants become ('zero', n) / ('const', n, v)"""
     items = []
+    i = 0
+    n_ = len(octs)
+    while i < n_:
+        o = octs[i]
+        if o[0] == "f":
+            b = o[1]
+            wbits = width_of(b)
+            if wbits is not None:
+                nb = (wbits + 7) // 8
+                want = [("f", b, 8 * (nb - 1 - k)) for k in range(nb)]
+                if [tuple(x) for x in octs[i:i + nb]] == want:
+                    nm = name_of(b)
+                    items.append(nm[:1] + (nb,) + nm[1:])
+                    i += nb
+                    continue
+            items.append(("expr", 1, "%s bits %d.." % (b, o[2])))
+            i += 1
+        elif o[0] == "c":
+            # maximal run of constants (up to 8 octets = one integer)
+            j = i
+            val = 0
+            while j < n_ and octs[j][0] == "c" and j - i < 8:
+                val = val * 256 + octs[j][1]
+                j += 1
+            if val == 0:
+                items.append(("zero", j - i))
+            else:
+                items.append(("const", j - i, val))
+            i = j
+        else:
+            items.append((o[0],) + tuple(o[1:]))
+            i += 1
+    return items
+
+
+def canon_writer(eng, st, toks, prefix="self.*"):
+    """canonical items of an encoder path.  Integer writes and computed octets are first expanded into per-octet
+    descriptors (which bits of which field, or which constant), then re-grouped, so that
+    `write_u16(a); write_u16(b)`, `write_u32(a << 16 | b)` and `write_bytes(&[a_hi, a_lo, b_hi, b_lo])` give the
+    same items."""
+    def name_of(b):
+        if b.endswith("#v"):
+            return ("enum", _strip(b[:-2], prefix))
+        return ("int", _strip(b, prefix))
+
+    def width_of(b):
+        return _sym_bits(eng, b)
+
+    items = []
+    pend = []          # octet descriptors not yet grouped
+
+    def flush():
+        if pend:
+            items.extend(_merge_octets(eng, pend, name_of, width_of))
+            del pend[:]
     for t in toks:
         if t["k"] == "int":
             w = t["n"].c
+            v = t["val"]
             p = t["prov"]
-            if p[0] == "const":
-                items.append(("const", w, p[1]))
-            elif p[0] == "sym":
-                if p[1].endswith("#v"):
-                    items.append(("enum", w, _strip(p[1][:-2], prefix)))
-                else:
-                    items.append(("int", w, _strip(p[1], prefix)))
+            if isinstance(v, VInt):
+                # a constant stays one item of its own width (the attribute type, a flag word)
+                if v.lin.is_const():
+                    flush()
+                    items.append(("const", w, v.lin.c))
+                    continue
+                if p[0] == "sym" and p[1] not in _divdefs(st):
+                    # the whole token is one value (possibly widened by a cast): one item of the token's width
+                    flush()
+                    items.append(("enum", w, _strip(p[1][:-2], prefix)) if p[1].endswith("#v") else ("int", w, _strip(p[1], prefix)))
+                    continue
+                octs = _octets_of_value(eng, st, v.lin, w)
+                if not any(o[0] == "x" for o in octs):
+                    pend.extend(octs)
+                    continue
+            flush()
+            if p[0] == "sym":
+                items.append(("enum", w, _strip(p[1][:-2], prefix)) if p[1].endswith("#v") else ("int", w, _strip(p[1], prefix)))
             else:
                 items.append(("expr", w, p[1]))
         elif t["k"] == "bytes":
             d = t["desc"]
             if d[0] == "const":
+                flush()
                 if all(x == 0 for x in d[1]):
                     items.append(("zero", len(d[1])))
                 else:
                     items.append(("constbytes", tuple(d[1])))
             elif d[0] == "elems":
                 for e in d[1]:
-                    if isinstance(e, VInt) and e.lin.is_const():
-                        items.append(("zero", 1) if e.lin.c == 0 else ("const", 1, e.lin.c))
+                    if isinstance(e, VInt):
+                        pend.extend(_octets_of_value(eng, st, e.lin, 1))
                     else:
-                        p = int_prov(eng, e)
-                        items.append(("int", 1, _strip(p[1], prefix)) if p[0] == "sym" else ("expr", 1, p[1]))
+                        pend.append(("x", repr(e)[:40]))
+            elif d[0] == "be" and isinstance(d[1], VInt) and d[2]:
+                pv = int_prov(eng, d[1])
+                if pv[0] == "sym" and pv[1] not in _divdefs(st):
+                    flush()
+                    items.append(("enum", d[2], _strip(pv[1][:-2], prefix)) if pv[1].endswith("#v") else ("int", d[2], _strip(pv[1], prefix)))
+                elif pv[0] == "const":
+                    flush()
+                    items.append(("const", d[2], pv[1]))
+                else:
+                    pend.extend(_octets_of_value(eng, st, d[1].lin, d[2]))
             elif d[0] == "sym" and len(d) == 2:
+                flush()
                 items.append(("rest", _strip(d[1], prefix)))
             elif d[0] == "arr" and isinstance(d[3], Lin) and d[3].is_const() and d[3].c == 0 and d[4].is_const():
+                flush()
                 items.append(("bytes", d[4].c, _strip(d[1] or "?", prefix)))
             else:
+                flush()
                 items.append(("?", repr(d)[:80]))
         elif t["k"] == "patch":
+            flush()
             items.append(("patch",))
-    return _merge_zero(items)
+    flush()
+    out = []
+    for it in items:
+        if it[0] == "x":
+            out.append(("expr", 1, it[1]))
+        else:
+            out.append(it)
+    return _merge_zero(out)
 
 
 def canon_reader(eng, st, rt, payload):
-    """canonical items of a decoder path; payload = decoded aggregate (Ok value)"""
+    """canonical items of a decoder path; payload = decoded aggregate (Ok value).  A fixed-width read is split
+    among the decoded fields that are provably bit ranges of it, so reading two u16 fields as one u32 and splitting
+    it gives the same items as two u16 reads."""
     lv = list(leaves(eng, st, payload)) if payload is not None else []
     utf8 = [e for e in st.events() if e[0] == "utf8"]
+    spans = []
+    for p, v in lv:
+        if isinstance(v, VInt) and not v.lin.is_const():
+            sp = bitspan(eng, st, v.lin)
+            if sp is not None:
+                spans.append((sp, _strip(p, "")))
     items = []
     for t in rt:
         if t["k"] == "read":
             w = t["n"].c
-            f = None
-            for p, v in lv:
-                if isinstance(v, VInt) and v.lin == t["val"].lin:
-                    f = _strip(p, "")
-            items.append(("int", w, f) if f is not None else ("read", w))
+            val = t["val"]
+            xs = next(iter(val.lin.t)) if isinstance(val, VInt) and len(val.lin.t) == 1 and val.lin.c == 0 else None
+            mine = sorted(((lo, n, f) for (b, lo, n), f in spans if b == xs and lo % 8 == 0 and n % 8 == 0 and lo + n <= 8 * w),
+                          key=lambda x: -x[0])
+            if not mine:
+                items.append(("read", w))
+                continue
+            # walk the octets from the most significant one
+            pos = 8 * w
+            ok = True
+            piece = []
+            for lo, n, f in mine:
+                if lo + n > pos:
+                    # overlapping fields (the same octets decoded twice): keep the first
+                    continue
+                if lo + n < pos:
+                    piece.append(("read", (pos - lo - n) // 8))
+                piece.append(("int", n // 8, f))
+                pos = lo
+            if pos > 0:
+                piece.append(("read", pos // 8))
+            items.extend(piece)
         elif t["k"] == "skip":
             items.append(("zero", t["n"].c) if t["n"].is_const() else ("skipvar", repr(t["n"])))
         elif t["k"] == "bytes":
@@ -258,7 +587,18 @@ def canon_reader(eng, st, rt, payload):
                 items.append(("rest", f, bool(isutf)))
         elif t["k"] == "sub":
             items.append(("sub", repr(t["n"])))
-    return _merge_zero(items)
+    return _merge_reads(_merge_zero(items))
+
+
+def _merge_reads(items):
+    """adjacent unnamed reads are one stretch of consumed octets"""
+    out = []
+    for it in items:
+        if it[0] == "read" and out and out[-1][0] == "read":
+            out[-1] = ("read", out[-1][1] + it[1])
+        else:
+            out.append(it)
+    return out
 
 
 def spec_sequences(items):
